@@ -36,7 +36,7 @@ import (
 
 // OmniStep is one step of a schedule.
 type OmniStep struct {
-	Kind string `json:"kind"` // grow | fork | restart
+	Kind string `json:"kind"` // grow | fork | heal | restart
 	Log  int    `json:"log"`
 	Size uint64 `json:"size"`
 }
@@ -309,8 +309,10 @@ func runOmni(c *OmniCase) (bool, []string, error) {
 	}()
 	witnessed := map[int]string{} // last text the witness is known to serve per log
 	forked := map[int]bool{}
+	honest := map[int]*vlib.Branch{}  // the branch a forked log left
+	lastWitnessed := map[int]string{} // what the witness served for a log when it forked
 	var classes []string
-	growths, crossed, restarts, forks := 0, false, 0, 0
+	growths, crossed, restarts, forks, heals := 0, false, 0, 0, 0
 	for si, st := range c.Steps {
 		what := fmt.Sprintf("step %d (%s log %d size %d)", si, st.Kind, st.Log, st.Size)
 		switch st.Kind {
@@ -363,6 +365,7 @@ func runOmni(c *OmniCase) (bool, []string, error) {
 				continue
 			}
 			// a history that is not an extension of what was witnessed
+			honest[st.Log] = l.branch
 			l.branch = l.branch.ForkAt(l.size-1, si)
 			if st.Size > l.size {
 				l.size = st.Size
@@ -385,9 +388,43 @@ func runOmni(c *OmniCase) (bool, []string, error) {
 				return true, classes, fmt.Errorf("%s: the log now serves a fork; the witness must stay on the witnessed history: %v", what, verr)
 			}
 			classes = append(classes, "stayed-at-fork:"+stubs.logs[st.Log].kind)
-			// the fork stays published: the log is lost for the rest of the schedule
+			// the fork stays published: the log is lost until a heal step
+			lastWitnessed[st.Log] = witnessed[st.Log]
 			delete(witnessed, st.Log)
 			forked[st.Log] = true
+		case "heal":
+			// the log goes back to the history the witness knows, at the size the fork had
+			// reached: from the witness's point of view an ordinary growth (or nothing new)
+			if !forked[st.Log] || honest[st.Log] == nil {
+				continue
+			}
+			stubs.mu.Lock()
+			l := stubs.logs[st.Log]
+			l.branch = honest[st.Log]
+			stubs.mu.Unlock()
+			forked[st.Log] = false
+			heals++
+			want := published(st.Log)
+			deadline := time.Now().Add(60 * time.Second)
+			var last string
+			for {
+				code, b, err := get(run, st.Log)
+				if err == nil && code == 200 {
+					if verr := validCosigned(st.Log, b, want); verr == nil {
+						break
+					} else {
+						last = verr.Error()
+					}
+				} else {
+					last = fmt.Sprintf("status %d err %v", code, err)
+				}
+				if time.Now().After(deadline) {
+					return true, classes, fmt.Errorf("%s: 60s (240 poll intervals) after the log returned from a (refused) fork to its witnessed history at the fork's size the witness still does not serve the published checkpoint: %s", what, last)
+				}
+				time.Sleep(40 * time.Millisecond)
+			}
+			witnessed[st.Log] = want
+			classes = append(classes, "followed-after-heal:"+stubs.logs[st.Log].kind)
 		case "restart":
 			if c.Storage != "sqlfile" {
 				continue
@@ -436,12 +473,13 @@ func runOmni(c *OmniCase) (bool, []string, error) {
 		return true, classes, err
 	}
 	run = nil
-	return (growths >= 2 && crossed) || restarts > 0 || forks > 0, classes, nil
+	_ = lastWitnessed
+	return (growths >= 2 && crossed) || restarts > 0 || forks > 0 || heals > 0, classes, nil
 }
 
-const ruleC14 = "omniwitness.Main started from a generated YAML configuration (one sumdb-type log, 1-3 tiles-type logs served by in-process stub servers over loopback), polling every 250ms, mem or file-backed SQLite, real listener; growth schedules over sizes crossing tile boundaries, restarts on the same database, switches to a forked history; after each growth the served checkpoint must become the published one, fully cosigned, within 60s; after a fork has been polled 4 more times the served checkpoint is still the witnessed one; non-trivial = schedule with >=2 growth steps one of which crosses a tile boundary, or a restart, or a fork; distinct by case hash"
+const ruleC14 = "omniwitness.Main started from a generated YAML configuration (one sumdb-type log, 1-3 tiles-type logs served by in-process stub servers over loopback), polling every 250ms, mem or file-backed SQLite, real listener; growth schedules over sizes crossing tile boundaries, restarts on the same database, switches to a forked history and back to the witnessed one at the fork's size; after each growth the served checkpoint must become the published one, fully cosigned, within 60s; after a fork has been polled 4 more times the served checkpoint is still the witnessed one; non-trivial = schedule with >=2 growth steps one of which crosses a tile boundary, or a restart, or a fork, or a return from a fork; distinct by case hash"
 
-var omniSizes = []uint64{1, 2, 3, 4, 5, 17, 255, 256, 257, 300, 511, 512, 513, 1000, 65535, 65536, 65537, 70000}
+var omniSizes = []uint64{1, 2, 3, 4, 5, 17, 255, 256, 257, 300, 511, 512, 513, 1000, 65535, 65536, 65537, 70000, 255999, 256001, 256100, 256255, 256257}
 
 func omniHash(c *OmniCase) string {
 	b, _ := json.Marshal(c)
@@ -454,9 +492,13 @@ func TestC14(t *testing.T) {
 		c := &OmniCase{Storage: rapid.SampledFrom([]string{"mem", "sqlfile", "sqlfile"}).Draw(rt, "storage"), NTiles: rapid.IntRange(1, 3).Draw(rt, "ntiles")}
 		nsteps := rapid.IntRange(3, 8).Draw(rt, "nsteps")
 		cur := make([]uint64, c.NTiles+1)
+		forkedGen := make([]bool, c.NTiles+1)
 		for i := 0; i < nsteps; i++ {
 			s := OmniStep{Log: rapid.IntRange(0, c.NTiles).Draw(rt, "log")}
 			switch k := vlib.Uniform(rt, 10, "kind"); {
+			case k < 6 && forkedGen[s.Log] && rapid.Bool().Draw(rt, "healfirst"):
+				s.Kind = "heal"
+				forkedGen[s.Log] = false
 			case k < 6:
 				s.Kind = "grow"
 				if rapid.Bool().Draw(rt, "edge") {
@@ -471,8 +513,17 @@ func TestC14(t *testing.T) {
 			case k < 8:
 				s.Kind = "restart"
 			default:
+				if forkedGen[s.Log] && rapid.Bool().Draw(rt, "heal") {
+					s.Kind = "heal"
+					forkedGen[s.Log] = false
+					break
+				}
 				s.Kind = "fork"
 				s.Size = cur[s.Log] + uint64(rapid.IntRange(0, 300).Draw(rt, "forkgrow"))
+				if cur[s.Log] >= 2 {
+					forkedGen[s.Log] = true
+					cur[s.Log] = s.Size
+				}
 			}
 			c.Steps = append(c.Steps, s)
 		}
@@ -489,10 +540,12 @@ func TestC14(t *testing.T) {
 // a fork on durable storage followed by growth of the *other* logs (a refused update must
 // not wedge the service), and single steps across the top power of two.
 func TestC14Fixed(t *testing.T) {
-	st := vlib.StatsFor("C14", "fixed", "fixed schedules: fork on SQLite then growth of the other logs and a restart; growth 255->257 and 65535->65537 in one step on both log types; "+ruleC14)
+	st := vlib.StatsFor("C14", "fixed", "fixed schedules: fork on SQLite then growth of the other logs and a restart; fork, return to the witnessed history at the fork's size, further growth; growth inside level-0 tile 1000 (255900 -> 256100); growth 255->257 and 65535->65537 in one step on both log types; "+ruleC14)
 	for _, c := range []*OmniCase{
 		{Storage: "sqlfile", NTiles: 1, Steps: []OmniStep{{Kind: "grow", Log: 0, Size: 300}, {Kind: "grow", Log: 1, Size: 5}, {Kind: "fork", Log: 0, Size: 400}, {Kind: "grow", Log: 1, Size: 9}, {Kind: "restart"}, {Kind: "grow", Log: 1, Size: 300}}},
 		{Storage: "sqlfile", NTiles: 1, Steps: []OmniStep{{Kind: "grow", Log: 1, Size: 40}, {Kind: "grow", Log: 0, Size: 7}, {Kind: "fork", Log: 1, Size: 40}, {Kind: "grow", Log: 0, Size: 12}}},
+		{Storage: "mem", NTiles: 1, Steps: []OmniStep{{Kind: "grow", Log: 1, Size: 300}, {Kind: "grow", Log: 0, Size: 300}, {Kind: "fork", Log: 1, Size: 400}, {Kind: "fork", Log: 0, Size: 400}, {Kind: "heal", Log: 1}, {Kind: "heal", Log: 0}, {Kind: "grow", Log: 1, Size: 450}, {Kind: "grow", Log: 0, Size: 450}}},
+		{Storage: "mem", NTiles: 1, Steps: []OmniStep{{Kind: "grow", Log: 0, Size: 255900}, {Kind: "grow", Log: 1, Size: 255900}, {Kind: "grow", Log: 0, Size: 256100}, {Kind: "grow", Log: 1, Size: 256100}}},
 		{Storage: "mem", NTiles: 1, Steps: []OmniStep{{Kind: "grow", Log: 0, Size: 255}, {Kind: "grow", Log: 1, Size: 255}, {Kind: "grow", Log: 0, Size: 257}, {Kind: "grow", Log: 1, Size: 257}, {Kind: "grow", Log: 0, Size: 65535}, {Kind: "grow", Log: 1, Size: 65535}, {Kind: "grow", Log: 0, Size: 65537}, {Kind: "grow", Log: 1, Size: 65537}}},
 	} {
 		nt, classes, err := runOmni(c)
